@@ -69,6 +69,11 @@ def shapes(r, tier):
     add('holes_mixed', [1, 2, 3, 4, 10, 20, 21, 30, 31, 32, 33, 34, 35])
     add('holes_single_first_last', [0, 5, 6, 7, 20])
     add('two_variants', [3, 4])
+    # flag-like enums: every discriminant a power of two, contiguous bits / a skipped bit / with zero / only the extremes
+    add('flags_contiguous', [1, 2, 4, 8, 16, 32, 64])
+    add('flags_skip_bit', [1, 2, 8, 32, 64])
+    add('flags_with_zero', [0, 1, 2, 4, 16])
+    add('flags_extremes', [1, 1 << (min(bits, 63) - 2)])
     add('two_variants_apart', [0, 64])
     if s:
         add('gapless_neg', range(-3, 3))
